@@ -118,7 +118,7 @@ CHECKS["C15"] = dict(
 CHECKS["C18"] = dict(
     category="proof",
     text="Read-only operations are executed symbolically from the real source on scenarios / planning problems with symbolic content and the observable view (all constructor-visible attributes of every reachable object; declared caches and derived geometry excluded) is compared before and after: occupancy_at_time for every obstacle role (incl. trajectories of states without an orientation attribute), occupancies_at_time_step, obstacle_states_at_time_step, find_lanelet_by_position, traffic-light state, lanelet distance / polygon, GoalRegion.is_reached (point-mass state), __eq__ / __hash__ of scenario and planning-problem set, deepcopy, LaneletNetwork.__getstate__, and writing to XML. Postcondition view' == view (tolerance 0), discharged by z3.",
-    note="route queries (predecessors / successors in range) through lanelets whose reference lists are not ascending; export (protobuf, then XML) of planning problems whose goal is given by lanelets with a sparse goal-lanelet map; drawing the lanelet network (MPRenderer.draw_lanelet_network: solid line markings, centre line coloured by a traffic light, stop line, border vertices; 2-D and 3-D boundary polylines; thorough tier also labels) IS under contract: numpy basic-indexing results, rows, reshape / ravel / transpose and asarray / ascontiguousarray of an array are modelled as views that write through to their base, and op= on an array writes in place, so an edit of a view of the lanelet vertices instead of a copy fails the frame obligation (shapely LineString.project / interpolate return unconstrained values; drawing an obstacle of every role (obstacle.draw -> draw_*_obstacle -> _draw_occupancy -> draw_polygon / rectangle / ellipse; the C19 builders, symbolic time window) is under the same frame contract; TrafficLight.draw, dashed markings, planning-problem drawing and render() are not under contract; Polygon._vertices counts as primary data in these frame comparisons (it was skipped as a cache until the fourth session; the C01 / C02 round-trip comparisons still skip it, DESIGN.md section 10 entry 21); a later write to the base is not seen through an already taken view); protobuf export IS under contract (pbmodel); the scenario id carries an unsorted prediction-id list and the network a lanelet built with default arguments so that in-place normalisations show; pickling is covered through __getstate__/__setstate__ only; 'exporting before and after gives the same file' follows from view equality plus C15",
+    note="route queries (predecessors / successors in range) through lanelets whose reference lists are not ascending; export (protobuf, then XML) of planning problems whose goal is given by lanelets with a sparse goal-lanelet map; drawing the lanelet network (MPRenderer.draw_lanelet_network: solid line markings, centre line coloured by a traffic light, stop line, border vertices; 2-D and 3-D boundary polylines; lanelet labels not covered) IS under contract: numpy basic-indexing results, rows, reshape / ravel / transpose and asarray / ascontiguousarray of an array are modelled as views that write through to their base, and op= on an array writes in place, so an edit of a view of the lanelet vertices instead of a copy fails the frame obligation (shapely LineString.project / interpolate return unconstrained values; drawing an obstacle of every role (obstacle.draw -> draw_*_obstacle -> _draw_occupancy -> draw_polygon / rectangle / ellipse; the C19 builders, symbolic time window) is under the same frame contract; TrafficLight.draw, dashed markings, planning-problem drawing and render() are not under contract; Polygon._vertices counts as primary data in these frame comparisons (it was skipped as a cache until the fourth session; the C01 / C02 round-trip comparisons still skip it, DESIGN.md section 10 entry 21); a later write to the base is not seen through an already taken view); protobuf export IS under contract (pbmodel); the scenario id carries an unsorted prediction-id list and the network a lanelet built with default arguments so that in-place normalisations show; pickling is covered through __getstate__/__setstate__ only; 'exporting before and after gives the same file' follows from view equality plus C15",
     technique="deductive: frame condition (modifies nothing observable) by AST symbolic execution of real source with structural snapshots, discharged by z3",
     design_ref="5/C18",
 )
